@@ -3,7 +3,7 @@
 Every accessor is recomputed from an annotated plain tree (absolute token offsets) that is
 built by plain attribute reads; ancestors and visited nodes are compared by identity.
 """
-from .. import flat, gen
+from .. import flat, gen, schemas
 from .common import describe_doc, pick_schema
 
 ID = "C09"
@@ -147,7 +147,8 @@ def ref_walk(parent, frm, to, f, out):
 
 
 def case(ctx, rnd, i):
-    sch = pick_schema(rnd, random_share=0.3)
+    # (one case in eight: a mark-centred random schema, which also has an inline atom WITH content)
+    sch = schemas.mark_schema(rnd) if rnd.random() < 0.125 else pick_schema(rnd, random_share=0.3)
     if sch is None:
         ctx.count("schema_gen_failed")
         return
